@@ -78,6 +78,8 @@ pub struct Sim {
     pub frame: u32,
     pub last_run: u32,
     pub next_msg_id: u64,
+    /// messages of the code under test that the harness's decoder rejected (data, reported by the validator)
+    pub wire_errors: Vec<String>,
     pub server_panicked: bool,
     /// whether `send_replication` ran in the most recent server frame (cfg-guarded counter in /repo)
     pub last_ran: bool,
@@ -210,6 +212,7 @@ impl Sim {
             frame: 0,
             last_run: 0,
             next_msg_id: 1,
+            wire_errors: Vec::new(),
             server_panicked: false,
             last_ran: false,
             last_sent: Vec::new(),
@@ -594,8 +597,20 @@ impl Sim {
         match r {
             Ok(v) => v,
             Err(e) => {
-                self.tool_errors.push(format!("decode s2c ch{ch}: {e} bytes={}", wire::hex(bytes)));
-                json!({"kind": "undecodable", "hex": wire::hex(bytes)})
+                // a message of the code under test that the independent decoder rejects is data, not a tool
+                // problem: it is recorded as a placeholder the specification cannot have predicted
+                self.wire_errors.push(format!("decode s2c ch{ch}: {e} bytes={}", wire::hex(bytes)));
+                match ch {
+                    CH_UPD => json!({"tick": -1, "maps": [], "desp": {}, "rems": {}, "chg": {}, "order": [], "rorder": [],
+                                     "len": bytes.len(), "undecodable": e}),
+                    CH_MUT => json!({"upd": -1, "tick": -1, "cnt": -1, "idx": -1, "ents": {}, "sizes": {}, "order": [],
+                                     "len": bytes.len(), "hdr": 0, "undecodable": e}),
+                    _ => {
+                        let (sb, _) = self.ev_base();
+                        let t = crate::events::SEV.get(ch.wrapping_sub(sb)).copied().unwrap_or("?");
+                        json!({"t": t, "id": -1, "stamp": -1, "e": "none", "undecodable": e})
+                    }
+                }
             }
         }
     }
@@ -684,8 +699,14 @@ impl Sim {
             let dec = match dec {
                 Ok(v) => v,
                 Err(e) => {
-                    self.tool_errors.push(format!("decode c2s ch{ch}: {e}"));
-                    json!({"kind": "undecodable"})
+                    self.wire_errors.push(format!("decode c2s ch{ch}: {e}"));
+                    if ch == CH_ACK {
+                        json!([-1])
+                    } else {
+                        let (_, cb) = self.ev_base();
+                        let t = crate::events::CEV.get(ch.wrapping_sub(cb)).copied().unwrap_or("?");
+                        json!({"t": t, "id": -1, "e": "none", "undecodable": e})
+                    }
                 }
             };
             let cl = &mut self.clients[ci];
